@@ -45,7 +45,14 @@ static struct {
 	nsync_note note[MAXOBJ]; int nnotes; int freed[MAXOBJ]; int notify_called[MAXOBJ]; int parent_of[MAXOBJ]; int dl_of[MAXOBJ];
 	int seen_notified[MAXOBJ]; int called[MAXOBJ]; int lpar[MAXOBJ]; int pending_new[RT_MAXT];
 	int ideal;
+	int *cells;          /* client data for the happens-before oracle (C03), one cell per thread */
+	int hbdata;
 } S;
+extern void __tsan_write4 (void *);
+extern void __tsan_read4 (void *);
+static int sink;
+static void wr_cell (int t) { if (S.hbdata) { __tsan_write4 (&S.cells[t]); S.cells[t] = t + 1; } }
+static void rd_cells (void) { int i; if (S.hbdata) for (i = 0; i < S.n; i++) { __tsan_read4 (&S.cells[i]); sink += S.cells[i]; } }
 
 extern void rt_ideal_reset (void) __attribute__ ((weak));
 extern int rt_ideal_holder (const void *mu) __attribute__ ((weak));
@@ -60,8 +67,8 @@ static nsync_time deadline (int dl) {
 static int expired (int dl) { return dl < 0 || (dl > 0 && rt_now () >= RT_T0 + dl); }
 
 /* ------------------------------------------------------------------ once */
-static void once_fn0 (void) { rt_point ("f0"); S.runs[0]++; S.running[0] = 1; rt_point ("f1"); S.running[0] = 0; S.done[0] = 1; }
-static void once_fn1 (void) { rt_point ("f0"); S.runs[1]++; S.running[1] = 1; rt_point ("f1"); S.running[1] = 0; S.done[1] = 1; }
+static void once_fn0 (void) { rt_point ("f0"); S.runs[0]++; S.running[0] = 1; wr_cell (0); rt_point ("f1"); S.running[0] = 0; S.done[0] = 1; }
+static void once_fn1 (void) { rt_point ("f0"); S.runs[1]++; S.running[1] = 1; wr_cell (1); rt_point ("f1"); S.running[1] = 0; S.done[1] = 1; }
 static void once_fa (void *a) { if ((long) a == 0) once_fn0 (); else once_fn1 (); }
 
 /* ------------------------------------------------------------------ client */
@@ -77,6 +84,7 @@ static void client (void *arg) {
 			if (!strcmp (o->name, "add")) {
 				uint32_t r;
 				S.prog_delta[t] = o->a;
+				if (o->a < 0) wr_cell (t);
 				r = nsync_counter_add (S.c, o->a);
 				if (o->a != 0 && (long) r != S.expect[t]) rt_violation ("O-lin", "nsync_counter_add(%d) returned %u but its own update left the counter at %ld", o->a, r, S.expect[t]);
 				S.ret[t] = (int) r;
@@ -99,6 +107,7 @@ static void client (void *arg) {
 				r = nsync_counter_wait (S.c, deadline (o->dl));
 				for (i = 0; i < S.nhist; i++) if (S.hist[i] == 0) z = 1;
 				if (r == 0 && !z) rt_violation ("O-ret", "nsync_counter_wait returned 0 but the counter has never been zero");
+				if (r == 0 && S.v0 > 0) rd_cells ();      /* the decrements that zeroed the counter happen before this return */
 				if (r != 0 && !expired (o->dl)) rt_violation ("O-ret", "nsync_counter_wait returned %u (timeout) at clock %ld before its deadline %d", r, (long) (rt_now () - RT_T0), o->dl);
 				S.ret[t] = (int) r;
 			}
@@ -117,6 +126,7 @@ static void client (void *arg) {
 				S.ret[t] = nn != NULL ? a : 0;
 			} else if (!strcmp (o->name, "notify")) {
 				S.called[a] = 1;
+				wr_cell (t);
 				nsync_note_notify (S.note[a]);
 				if (*(volatile uint32_t *) &S.note[a]->notified == 0) rt_violation ("O-lin", "nsync_note_notify(note %d) returned but the note is not notified", a);
 				S.seen_notified[a] = 1;
@@ -126,6 +136,7 @@ static void client (void *arg) {
 				if (r) {
 					int x = a, k, cause = 0;
 					for (k = 0; k < MAXOBJ && x != 0; k++, x = S.lpar[x]) if (S.called[x] || expired (S.dl_of[x])) cause = 1;
+					if (S.hbdata) rd_cells ();     /* notifying happens before any observation that the note is notified (single-notifier scenarios) */
 					if (!cause) rt_violation ("O-lin", "note %d observed notified although neither it nor an ancestor was notified and no deadline on that path has passed", a);
 					S.seen_notified[a] = 1;
 				} else {
@@ -146,6 +157,7 @@ static void client (void *arg) {
 			else if (k == 1) nsync_run_once_arg (S.once[which], once_fa, (void *) (long) which);
 			else if (k == 2) nsync_run_once_spin (S.once[which], which ? once_fn1 : once_fn0);
 			else nsync_run_once_arg_spin (S.once[which], once_fa, (void *) (long) which);
+			if (S.hbdata) { __tsan_read4 (&S.cells[which]); sink += S.cells[which]; }   /* the run of the once function happens before every return */
 			if (!S.done[which]) rt_violation ("O-once", "a run_once call on once %d returned before the function had completed (runs=%d running=%d)", which, S.runs[which], S.running[which]);
 			if (S.runs[which] != 1) rt_violation ("O-once", "the once function of once %d ran %d times", which, S.runs[which]);
 			S.ret[t] = S.runs[which];
@@ -181,6 +193,8 @@ static void setup (const char *init) {
 	if (strcmp (init, "=") != 0) snprintf (cur_init, sizeof cur_init, "%s", init);
 	parse_init (cur_init);
 	S.ideal = rt_ideal_reset != NULL;
+	S.hbdata = getenv ("VERIF_HB") != NULL;
+	S.cells = rt_malloc (sizeof (int) * RT_MAXT); memset (S.cells, 0, sizeof (int) * RT_MAXT); rt_name (S.cells, sizeof (int) * RT_MAXT, "cells");
 	if (rt_ideal_reset) rt_ideal_reset ();
 	if (S.kind == K_COUNTER) {
 		S.c = nsync_counter_new ((uint32_t) S.v0);
